@@ -10,9 +10,9 @@ tree=/repo
 if [ -n "$SCRATCH" ]; then
   tree=$(mktemp -d /tmp/seedmatrix-XXXXXX); rmdir "$tree"
   git -C /repo worktree add -q --detach "$tree" HEAD || exit 3
-  export SPOWTD_REPO="$tree" VERIF_SCRATCH_OUT=/dev/shm/seedmatrix-out
+  export SPOWTD_REPO="$tree" VERIF_SCRATCH_OUT=/dev/shm/seedmatrix-out-$$
 fi
-out="$here/seeded/RESULTS.md"
+out="${OUT:-$here/seeded/RESULTS.md}"
 {
 echo "# Seeded changes against the registered quick checks"
 echo
@@ -38,8 +38,8 @@ for meta in "$here"/seeded/C*/*/meta.json; do
   rm -f "$log"
 done
 # remove counter-examples produced against the changed trees (they are not regressions of the real tree)
-git -C "$here" status --porcelain replays | awk '$1=="??"{print $2}' | while read f; do rm -rf "$here/$f"; done
-if [ -n "$SCRATCH" ]; then git -C /repo worktree remove --force "$tree"; git -C /repo worktree prune; rm -rf /dev/shm/seedmatrix-out; fi
+[ -n "$SCRATCH" ] || git -C "$here" status --porcelain replays | awk '$1=="??"{print $2}' | while read f; do rm -rf "$here/$f"; done
+if [ -n "$SCRATCH" ]; then git -C /repo worktree remove --force "$tree"; git -C /repo worktree prune; rm -rf /dev/shm/seedmatrix-out-$$; fi
 echo >> "$out"; echo "All caught: $([ $status = 0 ] && echo yes || echo NO)" >> "$out"
 cat "$out"
 exit $status
